@@ -153,6 +153,9 @@ def impl_conformance(files, wd):
         sp, tp = pair
         vp = tp + ".impl"
         r = run_tlc("ImplTrace.tla", "ImplTrace.cfg", env={"TRACE": tp, "VIOL": vp}, workers=1, timeout=3000)
+        if (r["error"] or not os.path.exists(vp)) and r["rc"] in (-9, 137, 1, 134):
+            time.sleep(15)
+            r = run_tlc("ImplTrace.tla", "ImplTrace.cfg", env={"TRACE": tp, "VIOL": vp}, workers=1, timeout=3000)
         if r["error"] or not os.path.exists(vp):
             return {"checked": 0, "agree": 0, "error": r["error"]}
         d = json.loads(open(vp).read().split("\n")[0])
@@ -164,6 +167,10 @@ def impl_conformance(files, wd):
         sp, tp = pair
         vp = tp + ".dyn"
         r = run_tlc("ImplDynTrace.tla", "ImplDynTrace.cfg", env={"TRACE": tp, "VIOL": vp}, workers=1, timeout=3000, extra=["-noGenerateSpecTE"])
+        if (r["error"] or not os.path.exists(vp)) and r["rc"] in (-9, 137, 1, 134):
+            # a JVM killed from outside (memory pressure while other checks run beside this one): once more, a little later
+            time.sleep(15)
+            r = run_tlc("ImplDynTrace.tla", "ImplDynTrace.cfg", env={"TRACE": tp, "VIOL": vp}, workers=1, timeout=3000, extra=["-noGenerateSpecTE"])
         if r["error"] or not os.path.exists(vp):
             return {"checked": 0, "steps": 0, "agree": 0, "error": (r["error"] or "no result") + ": " + r["out"][-1200:]}
         d = json.loads(open(vp).read().split("\n")[0])
@@ -183,7 +190,8 @@ def validate(files, wd, spec="RefTrace"):
         vp = tp + ".viol"
         r = run_tlc(spec + ".tla", spec + ".cfg", env={"TRACE": tp, "VIOL": vp}, workers=1, timeout=3000)
         if r["error"] or not os.path.exists(vp):
-            # a model failure is believed only if it repeats
+            # a model failure is believed only if it repeats (a JVM killed from outside gets a moment first)
+            time.sleep(15 if r["rc"] in (-9, 137) else 0)
             r = run_tlc(spec + ".tla", spec + ".cfg", env={"TRACE": tp, "VIOL": vp}, workers=1, timeout=3000)
             if r["error"] or not os.path.exists(vp):
                 raise Broken("trace validation did not complete for %s: %s\n%s" % (tp, r["error"], r["out"][-3000:]))
